@@ -5,6 +5,7 @@ import CompmechVerif.Props.C06
 #print axioms Compmech.EigPost.C06.sorted_frequencies_positive
 #print axioms Compmech.EigPost.C06.freq_ascending_partial
 #print axioms Compmech.EigPost.C06.freq_ascending_within_tenth
+#print axioms Compmech.EigPost.C06.first_frequency_fundamental_within_tenth
 #print axioms Compmech.EigPost.C06.rint_monotone_and_separating
 #print axioms Compmech.EigPost.C06.freq_ascending_counterexample
 #print axioms Compmech.EigPost.C06.freq_sparse_shapes_total
